@@ -291,6 +291,14 @@ private:
     double draw_value(rng_t& r, feature_type type) const
     {
         // values exactly representable in the storage type (so that the stored value IS the drawn value)
+        if (m_value_mode % 10 == 2 && type != feature_type::float32 && type != feature_type::float64)
+        {
+            // small integers in every integer storage type: a value that lies exactly at the mid-point of two others (the threshold
+            // of a split fitted on a subset that lacks it) is then frequent, see seeded change C10-dtree-split-boundary
+            const bool is_unsigned = type == feature_type::uint8 || type == feature_type::uint16 || type == feature_type::uint32 ||
+                                     type == feature_type::uint64;
+            return static_cast<double>(is_unsigned ? r.range(0, 10) : r.range(-5, 5));
+        }
         switch (type)
         {
         case feature_type::int8: return static_cast<double>(r.range(-100, 100));
